@@ -9,6 +9,7 @@ from ..cfg import cfg_of
 from ..core import AnalysisError, call_name, unparse, walk_no_nested
 from ..packs import ecc
 from ..report import Ctx
+from ..pattern import body_is, find, find_expr, has, has_expr
 
 
 def run(ctx: Ctx) -> None:
@@ -25,11 +26,21 @@ def run(ctx: Ctx) -> None:
     D = prog.cls('database', 'Database')
     p = D.methods['panel']
     cfg = cfg_of(p.node)
-    test = [n for n in walk_no_nested(p.node) if isinstance(n, ast.If) and unparse(n.test) == 'n_groups != n_individuals' and any(isinstance(x, ast.Raise) and 'BiogemeError' in unparse(x) for x in n.body)]
-    build = [n for n in walk_no_nested(p.node) if isinstance(n, ast.Expr) and unparse(n.value) == 'self.build_panel_map()']
-    txt = unparse(p.node)
-    ok = len(test) == 1 and len(build) == 1 and cfg.dominates(cfg.node_of(test[0]), cfg.node_of(build[0]))
-    ok = ok and 'n_groups = biogeme.tools.count_number_of_groups(self.data, self.panelColumn)' in txt and 'sorted_data = self.data.sort_values(by=[self.panelColumn])' in txt and 'n_individuals = biogeme.tools.count_number_of_groups(sorted_data, self.panelColumn)' in txt
+    bb = find(p.node, """
+_G = biogeme.tools.count_number_of_groups(self.data, self.panelColumn)
+_S = self.data.sort_values(by=[self.panelColumn])
+_N = biogeme.tools.count_number_of_groups(_S, self.panelColumn)
+if _G != _N:
+    ___
+    raise BiogemeError(__MSG)
+___
+self.build_panel_map()
+""")
+    ok = bb is not None
+    if ok:
+        test = [n for n in walk_no_nested(p.node) if isinstance(n, ast.If) and unparse(n.test) == f'{bb["_G"]} != {bb["_N"]}']
+        build = [n for n in walk_no_nested(p.node) if isinstance(n, ast.Expr) and unparse(n.value) == 'self.build_panel_map()']
+        ok = len(test) == 1 and len(build) == 1 and cfg.dominates(cfg.node_of(test[0]), cfg.node_of(build[0]))
     ctx.add('C09.R1', 'Database.panel', ok, p, 'groups of consecutive rows are compared with the number of individuals (after sorting) and a mismatch raises before the map is built' if ok else 'the contiguity test of Database.panel changed or no longer precedes build_panel_map', 'contiguity')
     b = D.methods['build_panel_map']
     body = b.body
@@ -38,12 +49,18 @@ def run(ctx: Ctx) -> None:
     steps = [unparse(s) for s in guard.body] if ok else []
     seq = ['self.data = self.data.sort_values(by=self.panelColumn)', 'self.data.index = range(len(self.data.index))']
     ok = ok and steps[:2] == seq
-    t = unparse(b.node)
-    okm = 'indices = self.data.loc[self.data[self.panelColumn] == i].index' in t and 'local_map[i] = [min(indices), max(indices)]' in t and 'individuals = self.data[self.panelColumn].unique()' in t and 'self.individualMap = pd.DataFrame(local_map).T' in t
+    okm = has(b.node, """
+_M = {}
+_INDS = self.data[self.panelColumn].unique()
+for _I in _INDS:
+    _IDX = self.data.loc[self.data[self.panelColumn] == _I].index
+    _M[_I] = [min(_IDX), max(_IDX)]
+self.individualMap = pd.DataFrame(_M).T
+""")
     ctx.add('C09.R1', 'Database.build_panel_map:order', ok, b, 'sort, then renumber the index, then build the map' if ok else f'build_panel_map starts with {steps[:2]}', str(steps[:2]))
     ctx.add('C09.R1', 'Database.build_panel_map:rows', okm, b, 'each individual is mapped to [first, last] position of its rows' if okm else 'the map rows are no longer [min, max] of the positions of the rows of the individual', 'rows')
     cg = prog.func('tools.database', 'count_number_of_groups')
-    ok = "df['_bio_groups'] = pd.Series(df[column] != df[column].shift(1)).cumsum()" in unparse(cg.node) and "result = len(df['_bio_groups'].unique())" in unparse(cg.node)
+    ok = has(cg.node, "df['_bio_groups'] = pd.Series(df[column] != df[column].shift(1)).cumsum()\n_R = len(df['_bio_groups'].unique())\n___\nreturn _R")
     ctx.add('C09.R1', 'count_number_of_groups', ok, cg, 'a group starts wherever the value differs from the previous row' if ok else 'count_number_of_groups changed', 'groups')
 
     ecc(ctx, 'C09.R2', methods={'setPanel', 'setDataMap'})
@@ -62,8 +79,16 @@ def run(ctx: Ctx) -> None:
     sp = [n for n in walk_no_nested(init.node) if isinstance(n, ast.If) and unparse(n.test) == 'self.database.is_panel()' and 'self.theC.setPanel(True)' in unparse(n) and 'self.theC.setDataMap(self.database.individualMap)' in unparse(n)]
     ctx.add('C09.R2', 'BIOGEME.__init__:setPanel', len(sp) == 1, init, 'panel data: setPanel(True) together with the map' if sp else 'setPanel(True) no longer accompanies the map', 'setPanel')
     calc = prog.func('expressions.calculator', 'calculate_function_and_derivatives')
-    t = unparse(calc.node)
-    ok = "if the_expression.embed_expression('PanelLikelihoodTrajectory'):" in t and 'if database.is_panel():\n            database.build_panel_map()\n            the_cpp.setDataMap(database.individualMap)' in t and "raise BiogemeError(error_msg)" in t
+    ok = has(calc.node, """
+if the_expression.embed_expression('PanelLikelihoodTrajectory'):
+    ___
+    if database.is_panel():
+        database.build_panel_map()
+        _C.setDataMap(database.individualMap)
+    else:
+        ___
+        raise BiogemeError(__MSG)
+""")
     ctx.add('C09.R2', 'calculator:panel', ok, calc, 'a trajectory operator needs panel data; the map is rebuilt and handed over' if ok else 'panel handling of the calculator changed', 'calc')
 
     g = D.methods['get_sample_size']
@@ -91,14 +116,13 @@ def run(ctx: Ctx) -> None:
             ctx.add('C09.R4', o.construct, o.ok, (o.file, o.line), o.message, o.detail)
     PT = prog.find_class('PanelLikelihoodTrajectory', 'expressions')
     f = PT.methods['count_panel_trajectory_expressions']
-    ok = [unparse(s) for s in f.body] == ['return 1 + self.child.count_panel_trajectory_expressions()']
+    ok = body_is(f.body, 'return 1 + self.child.count_panel_trajectory_expressions()') is not None
     ctx.add('C09.R4', 'PanelLikelihoodTrajectory.count', ok, f, 'the operator counts itself plus what is below' if ok else 'count of trajectory operators changed', 'count')
     a = PT.methods['audit']
-    ok = 'if not database.is_panel():' in unparse(a.node) and 'list_of_errors.append(the_error)' in unparse(a.node)
+    ok = has(a.node, "_E, _W = self.child.audit(database)\nif not database.is_panel():\n    _M = __MSG\n    _E.append(_M)\nreturn (_E, _W)")
     ctx.add('C09.R4', 'PanelLikelihoodTrajectory.audit:panel', ok, a, 'the operator is refused on non-panel data' if ok else 'the trajectory operator no longer requires panel data', 'panel')
     mc = prog.find_class('MonteCarlo', 'expressions').methods['audit']
-    t = unparse(mc.node)
-    ok = "if database.is_panel() and (not self.child.embed_expression('PanelLikelihoodTrajectory')):" in t and 'list_of_errors.append(the_error)' in t
+    ok = has(mc.node, "if database.is_panel() and (not self.child.embed_expression('PanelLikelihoodTrajectory')):\n    _M = __MSG\n    _E.append(_M)")
     ctx.add('C09.R4', 'MonteCarlo.audit:panel', ok, mc, 'on panel data the Monte-Carlo argument must contain a trajectory operator (same draws for all rows of an individual)' if ok else 'MonteCarlo.audit no longer requires a trajectory on panel data', 'mc')
     ctx.floor('C09.R4', 10)
     ctx.floor('C09.R2', 9)
